@@ -412,7 +412,21 @@ def main(tier):
                         "samples": ex.samples[:4], "exhaustive": bool(done), "levels": st["levels"], "depth_bound": depth, "outcome_counters": c, "variant": variant, "softhsm2_util_pass": util_cov,
                         "rule": "histories up to the depth bound merged on the per-token model (exists, PIN indexes, object privacy multiset, held sessions, restarted); "
                                 "after every action every token is observed completely in a throw-away snapshot and compared with the model"}
-        rep.assumptions = ["file store; softhsm2-util (--init-token --free, --delete-token) of the same build runs on the directory while the library instance is finalised", "two PIN values per user type and token; objects are AES token keys"]
+        # the SQLite store: the same alphabet one level shallower (successors reached in restoring snapshots)
+        ddepth = depth - 1
+        exd = Explorer(C14(util=not quick), variant=variant, store="db", deadline=deadline)
+        try:
+            fixd = exd.bfs(ddepth)
+            confirm_violations(exd, rep)
+            sd = exd.stats
+            if not sd["counters"].get("reinit_ok") or not sd["counters"].get("restart_ok") or not sd["counters"].get("init_free_ok"):
+                rep.harness_errors.append("vacuous (SQLite lane): %r" % sd["counters"])
+            rep.coverage["sqlite_store"] = {"states": sd["states"], "transitions": sd["transitions"], "levels": sd["levels"], "depth_bound": ddepth,
+                                            "exhaustive": bool(fixd or sd["depth_completed"] >= ddepth), "outcome_counters": sd["counters"]}
+            rep.coverage["exhaustive"] = bool(rep.coverage["exhaustive"] and rep.coverage["sqlite_store"]["exhaustive"])
+        finally:
+            exd.close()
+        rep.assumptions = ["file store to the full depth, SQLite store one level shallower; softhsm2-util (--init-token --free, --delete-token) of the same build runs on the directory while the library instance is finalised", "two PIN values per user type and token; objects are AES token keys"]
     finally:
         ex.close()
     return rep.finish()
